@@ -189,7 +189,17 @@ def tip_arg_value(t):
     if t["k"] == "one":
         return tip_value(t["s"])
     vals = [tip_value(s) for s in t["x"]]
-    return tuple(vals) if t.get("present") == "tuple" else vals
+    present = t.get("present")
+    if present == "tuple":
+        return tuple(vals)
+    if present == "iter":
+        return (v for v in vals)  # a one-shot iterable (generator, map, reversed, ...)
+    if present == "set":
+        try:
+            return set(vals)  # Tip members and equal numbers merge, the OR does not change
+        except TypeError:
+            return vals
+    return vals
 
 
 def tip_arg_log(t):
@@ -263,21 +273,30 @@ def shape_vols(a, unit, present, numkind="float"):
             return int(f)
         if numkind == "np":
             return np.float64(f)
+        if numkind == "npint" and float(f).is_integer() and abs(f) < 2**53:
+            return np.int64(f)
         return f
+
+    def arr(v):
+        # integer volumes handed over as an integer array (a table read with dtype=int)
+        flat = np.array(v, dtype=float)
+        if numkind in ("int", "npint") and flat.size and np.all(np.isfinite(flat)) and np.all(flat == np.floor(flat)) and np.all(np.abs(flat) < 2**53):
+            return np.array(v, dtype=np.int64)
+        return flat
 
     if a["k"] == "s":
         return one(a["x"])
     if a["k"] == "l":
         v = [one(k) for k in a["x"]]
         if present == "ndarray":
-            return np.array(v, dtype=float)
+            return arr(v)
         if present == "tuple":
             return tuple(v)
         return v
     v = [[one(k) for k in row] for row in a["x"]]
     if present == "fortran":
-        return np.asfortranarray(np.array(v, dtype=float))
-    return np.array(v, dtype=float) if present != "list" else v
+        return np.asfortranarray(arr(v))
+    return arr(v) if present != "list" else v
 
 
 def log_wells(a):
